@@ -341,6 +341,16 @@ def run(chk):
         for b in JOIN_OPERANDS[:8]:
             for c in fixed[:3]:
                 stmts.append((c, 'SELECT * FROM %s AS a JOIN %s AS b ON a.id = b.id' % (a, b), 'select', ['join-operands']))
+    # model references in every spelling, against catalogs whose model project is given with capital letters
+    capcats = [R.Cat([('n', 'int1'), ('n', 'int2')], None, ('list', [('model', 'Proj')]), 'int1'),
+               R.Cat([('d', 'int1', 'data', 'sql')], 'mindsdb', ('list', [('model', 'MLflow'), ('pred', None)]), 'int1'),
+               R.Cat([('n', 'int1'), ('n', 'int2')], None, ('legacy', [('model', 'Proj')]), 'int2')]
+    for c in capcats:
+        proj = c.pm[1][0][1]
+        for q in (proj, proj.lower(), proj.upper(), '`%s`' % proj.lower()):
+            for m in ('model', 'MODEL', 'model.3'):
+                stmts.append((c, 'SELECT * FROM %s.%s WHERE x = 1' % (q, m), 'select', ['model-select-cap']))
+                stmts.append((c, 'SELECT * FROM int1.t AS a JOIN %s.%s AS m' % (q, m), 'select', ['model-join-cap']))
     n_probe_fail = 0
     for c, sql, kind, feats in stmts:
         chk.count((c.key(), sql))
@@ -373,6 +383,7 @@ def run(chk):
         chk.oblige('corr:route-driver', 'correspondence', False, 'driver failed: %s' % e)
     if outs is not None:
         res = {k: [0, 0, None] for k in ('cat', 'route', 'plan', 'strip')}
+        skipped_big = []
         for (op, c, arg), o in zip(metas, outs):
             r = res[op]
             r[0] += 1
@@ -411,6 +422,8 @@ def run(chk):
                 elif msingle is not None and real.get('steps') != 1:
                     why = dict(sql=sql, field='steps', impl=real.get('steps'), model=1)
                 bump('plan/%s' % ('pushed' if msingle else 'not-pushed'))
+                if not o['skipLeafOnly']:
+                    skipped_big.append(sql)
             elif op == 'strip':
                 sql, ast = arg
                 q = copy.deepcopy(ast)
@@ -424,6 +437,9 @@ def run(chk):
                 r[2] = r[2] or why
         for k, (n, d, first) in res.items():
             chk.corr_result('route-' + k, n, d, first, dist if k == 'plan' else None)
+        # hypothesis of C10_partial_pushdown: whatever the live walker skips is a name or a constant
+        chk.oblige('hyp:skipLeafOnly', 'hypothesis-check', not skipped_big,
+                   'a generated tree holds a non-atomic node in a slot the walker skips: %s' % skipped_big[:2])
     for c, sql, kind, feats in stmts[:3]:
         chk.samples.append(dict(sql=sql, catalog=c.kwargs(), features=feats))
     chk.samples.append(dict(theorem='C10_resolvers : ∀ c parts, defaultOk c → parts ≠ [] → routeJoinOperand c parts = routeSimple c parts'))
